@@ -1353,6 +1353,25 @@ def corpus_replay(ctx):
     for path in sorted(glob.glob(os.path.join(common.VERIF, 'corpus', 'C12', '*.json'))):
         tag = os.path.basename(path)[:-5]
         for j, e in enumerate(json.load(open(path))['entries']):
+            if e.get('kind') == 'function_channel':
+                d = e['dim']; ch = numqi.channel
+                fn = {'returns-argument': lambda r: r, 'returns-view': lambda r: r.reshape(d, d), 'returns-transposed-view': lambda r: r.T,
+                      'rate-0-shortcut': (lambda r, p=0.0: r if p == 0 else ch.apply_kraus_op(ch.hf_dephasing_kraus_op(p), r))}[e['function']]
+                want = np.zeros((d * d, d * d))
+                for a in range(d):
+                    for b in range(d):
+                        if e['function'] == 'returns-transposed-view':
+                            want[a * d + b, b * d + a] = 1          # the transpose map
+                        else:
+                            want[a * d + a, b * d + b] = 1          # the identity channel
+                rep = dict(op='hf_channel_to_choi_op', corpus=f'{tag}#{j}', dim_in=d, function_kind=e['function'])
+                got = guarded(lambda: np.asarray(ch.hf_channel_to_choi_op(fn, d)).reshape(d * d, d * d))
+                if isinstance(got, str) or not np.array_equal(got, want):
+                    ctx.fail(FNCH_KEY, f'[corpus {tag}] hf_channel_to_choi_op(<{e["function"]} function>, {d}) has {0 if isinstance(got, str) else int(np.count_nonzero(got))} non-zero entries, '
+                             f'the Choi operator of that map has {int(want.sum())}', rep)
+                else:
+                    ctx.probe_ok(('corpus', tag, j))
+                continue
             if e.get('kind') != 'renyi':
                 continue
             states = []
